@@ -183,3 +183,50 @@ debug_val!(c01_debug_raw_certificate, 12, |d| tp::RawCertificate { data: d });
 debug_val!(c01_debug_client_key_exchange, 12, |d| tp::TlsClientKeyExchangeContents::Ecdh(tp::ECPoint { point: d }));
 debug_val!(c01_debug_digitally_signed, 12, |d| tp::DigitallySigned { alg: Some(tp::SignatureAndHashAlgorithm { hash: tp::HashAlgorithm(kani::any()), sign: tp::SignAlgorithm(kani::any()) }), data: d });
 debug_val!(c01_debug_heartbeat, 12, |d| tp::TlsMessage::Heartbeat(tp::TlsMessageHeartbeat { heartbeat_type: tp::TlsHeartbeatMessageType(kani::any()), payload_len: kani::any(), payload: d }));
+
+// ------------------------------------------------------------------------------------------------
+// Heap clause, per allocation: `alloc::alloc::alloc` / `realloc` are replaced by versions that assert the
+// requested size against a linear function of the input length (64 bytes per input byte + 1 KiB) and then
+// allocate (zeroed). A length *field* that drives an allocation before it is validated breaks this.
+static mut ALLOC_LIMIT: usize = usize::MAX;
+
+unsafe fn checked_alloc(layout: core::alloc::Layout) -> *mut u8 {
+    vassert!(layout.size() <= ALLOC_LIMIT, "C01.heap.allocation_bounded_by_linear_function_of_input_length");
+    vcover!(layout.size() > 0, "C01.cover.allocation_observed");
+    alloc::alloc::alloc_zeroed(layout)
+}
+unsafe fn checked_realloc(ptr: *mut u8, layout: core::alloc::Layout, new_size: usize) -> *mut u8 {
+    vassert!(new_size <= ALLOC_LIMIT, "C01.heap.allocation_bounded_by_linear_function_of_input_length");
+    let new_layout = core::alloc::Layout::from_size_align_unchecked(new_size, layout.align());
+    let p = alloc::alloc::alloc_zeroed(new_layout);
+    if !p.is_null() {
+        core::ptr::copy_nonoverlapping(ptr, p, if layout.size() < new_size { layout.size() } else { new_size });
+        alloc::alloc::dealloc(ptr, layout);
+    }
+    p
+}
+
+macro_rules! alloc_bound {
+    ($name:ident, $n:expr, $unw:expr, |$b:ident| $call:expr) => {
+        #[kani::proof]
+        #[kani::unwind($unw)]
+        #[kani::stub(alloc::alloc::alloc, checked_alloc)]
+        #[kani::stub(alloc::alloc::realloc, checked_realloc)]
+        fn $name() {
+            let buf: [u8; $n] = kani::any();
+            let n: usize = kani::any();
+            kani::assume(n <= $n);
+            unsafe {
+                ALLOC_LIMIT = 64 * $n + 1024;
+            }
+            let $b = &buf[..n];
+            let r = ManuallyDrop::new($call);
+            vcover!(r.is_ok(), "C01.cover.alloc_bound_ok");
+            vcover!(r.is_err(), "C01.cover.alloc_bound_err");
+        }
+    };
+}
+alloc_bound!(c01_alloc_bound_certificate, 11, 6, |b| tp::parse_tls_handshake_msg_certificate(b));
+alloc_bound!(c01_alloc_bound_sni, 10, 7, |b| tp::parse_tls_extension_sni_content(b));
+alloc_bound!(c01_alloc_bound_sct_list, 8, 10, |b| tp::parse_ct_signed_certificate_timestamp_list(b));
+alloc_bound!(c01_alloc_bound_certificate_request, 7, 9, |b| tp::parse_tls_handshake_certificaterequest(b));
